@@ -2,6 +2,7 @@
 From Coq Require Import ZArith NArith List Bool Reals Floats.
 From PV Require Import Num NumR model.Optimiser model.OptSpec proofs.OptStruct proofs.OptLoop proofs.FloatFacts proofs.FloatZero proofs.HillClimb proofs.RealFacts.
 From PV Require Import gen.GenFns proofs.SourceFacts.
+From PV Require Import proofs.SourceCorollaries.
 
 Theorem C07_undefined_never_accepted :
   forall (NN : Num) (fexp : carrier NN -> carrier NN) (thr old k : carrier NN), accept NN fexp
@@ -76,4 +77,29 @@ Theorem C07_accept_score_is_source :
     new old kt then new else None).
 Proof. exact accept_score_is_source. Qed.
 Print Assumptions C07_accept_score_is_source.
+
+
+Theorem C07_source_undefined_never_accepted :
+  forall (NN : Num) (fexp : carrier NN -> carrier NN) (thr old kt : carrier NN),
+    gen_accept_score NN fexp thr None old kt = None.
+Proof. exact source_undefined_never_accepted. Qed.
+Print Assumptions C07_source_undefined_never_accepted.
+
+Theorem C07_source_better_always_accepted :
+  forall thr old new kT : R, (old < new)%R -> gen_accept_score NumR exp thr (Some new) old kT =
+    Some new.
+Proof. exact source_better_always_accepted. Qed.
+Print Assumptions C07_source_better_always_accepted.
+
+Theorem C07_source_equal_accepted :
+  forall thr old kT : R, (0 < kT)%R -> (thr < 1)%R -> gen_accept_score NumR exp thr (Some old)
+    old kT = Some old.
+Proof. exact source_equal_accepted. Qed.
+Print Assumptions C07_source_equal_accepted.
+
+Theorem C07_source_worse_accepted_iff :
+  forall thr old d kT : R, (0 < d)%R -> (0 < kT)%R -> gen_accept_score NumR exp thr (Some (old -
+    d)%R) old kT = Some (old - d)%R <-> (thr < exp (- d / kT))%R.
+Proof. exact source_worse_accepted_iff. Qed.
+Print Assumptions C07_source_worse_accepted_iff.
 
